@@ -286,6 +286,20 @@ mut("c13-hull-intersection", "C13", "C13.R1", (FM, "        let start = start.mi
 mut("c13-formatter-dropped", "C13", "C13.R1", (CH, "        Box::new(formatter::prev_line_break_remover::PrevLineBreakRemover {}),\n", ""))
 mut("c13-formatter-asked-elsewhere", "C13", "C13.R1", (FM, "        let (start, end) = f.format(content, pos);", "        let (start, end) = f.format(content, range.end);"))
 
+# ---------------------------------------------------------------- rules added after the sub-agent rounds
+mut("c08-empty-body-accepted", "C08", "C08.R3", (TK, "                None => (None, State::InDelimiter),", "                None => get_state(c, delimiter_start, delimiter_end, State::InDelimiter),"))
+mut("c16-lines-trimmed", "C16", "C16.R5", (LS, '.map(|l| format!("{line_column}{l}\\n"))', '.map(|l| format!("{line_column}{}\\n", l.trim_end()))'))
+mut("c17-squash-by-start-only", "C17", "C17.R4", (RM, "                let can_squash =\n                    range.contains(&pending_range.start) && range.contains(&pending_range.end);", "                let can_squash = range.contains(&pending_range.start);"))
+mut("c17-marker-evaluator-conditional", "C17", "C17.R5", (CH, "    builder_map.insert(\n        config.removal_marker_configuration.tag_name,", "    if !config.removal_marker_configuration.targets.is_empty() {\n    builder_map.insert(\n        config.removal_marker_configuration.tag_name.clone(),"), (CH, "                marker_removal_names: config.removal_marker_configuration.targets,\n            },\n        ),\n    );", "                marker_removal_names: config.removal_marker_configuration.targets,\n            },\n        ),\n    );\n    }"))
+mut("c14-output-normalised", "C14", "C14.R6", (CH, "    formatter::format(&removed, &removed_pos, &formatter, &structure_formatters)\n}", "    formatter::format(&removed, &removed_pos, &formatter, &structure_formatters).replace(\"\\r\\n\", \"\\n\")\n}"))
+mut("c18-name-char-class", "C18", "C18.R8", (EP, "                                _ => {\n                                    state = State::Name(pos);\n                                }\n                            },\n                            State::Name(start)", "                                c if !c.is_ascii_alphabetic() && c != '/' => state = State::ParseError,\n                                _ => {\n                                    state = State::Name(pos);\n                                }\n                            },\n                            State::Name(start)"))
+mut("c10-descent-skipped", "C10", "C10.R3", (PA, "                    let mut next_parent_elements = parent_elements.clone();", "                    if parent_elements.len() >= 64 {\n                        return State::Content(vec![ContentPart::Text(Text { token: t })]);\n                    }\n                    let mut next_parent_elements = parent_elements.clone();"))
+mut("c12-amount-from-later-line", "C12", "C12.R2b", (BI, "let first_indent_len = get_indent_len(content, current_pos);", "let first_indent_len = get_indent_len(content, end_byte_pos.min(current_pos + 1));"))
+mut("c02-hull-merge", "C02", "C02.R3b", (FM, "            ranges[write_cursor].end = ranges[write_cursor].end.max(ranges[read_cursor].end)", "            ranges[write_cursor].start = ranges[write_cursor].start.min(ranges[read_cursor].start);\n            ranges[write_cursor].end = ranges[write_cursor].end.max(ranges[read_cursor].end)"))
+mut("c03-absorb-without-widening-start", "C03", "C03.R7", (RM, "                marker.start = marker.start.min(child_marker.start);\n", ""))
+mut("c02-child-end-test-dropped", "C02", "C02.R8", (RM, "if marker.contains(&child_marker.start) || marker.contains(&child_marker.end) {", "if marker.contains(&child_marker.start) {"))
+mut("c07-fresh-start-without-boundary", "C07", "C07.R5", (TK, "get_state(c, delimiter_start, delimiter_end, State::Text)", "(None, check_delimiter_start(c, delimiter_start))"))
+
 # ---------------------------------------------------------------- benign variants (every rule silent)
 benign("b-c05-single-expression", (TL, "if self.current_time < expires.unwrap() {\n            return false;\n        }\n\n        true", "self.current_time >= expires.unwrap()"))
 benign("b-c05-format-shorthand", (TL, 'parse_from_str(&expires_str, "%Y-%m-%d %H:%M:%S %z")', 'parse_from_str(&expires_str, "%F %T %z")'))
